@@ -60,7 +60,7 @@ type fwResult struct {
 	FollowPanic  string              `json:"follow_panic,omitempty"`
 	FollowHang   bool                `json:"follow_hang,omitempty"`
 	FollowCalls  int                 `json:"follow_calls,omitempty"`
-	Unit         *unitObs            `json:"unit,omitempty"`
+	Unit         *fwUnitObs            `json:"unit,omitempty"`
 }
 
 func fwGenOptions(abstract bool) fed.GenOptions {
@@ -332,7 +332,7 @@ func (pl *fwPool) Run(c fwCase) (fwOutcome, error) {
 	case r := <-ch:
 		if r.err != nil || len(r.line) == 0 {
 			p.cmd.Wait()
-			msg := crashHead(p.stderr.String())
+			msg := fwCrashHead(p.stderr.String())
 			pl.p = nil
 			pl.Crashes++
 			return fwOutcome{Crash: msg}, nil
@@ -350,8 +350,8 @@ func (pl *fwPool) Run(c fwCase) (fwOutcome, error) {
 	}
 }
 
-// crashHead extracts "panic: ..." plus the first pebbles frames from a Go crash dump.
-func crashHead(s string) string {
+// fwCrashHead extracts "panic: ..." plus the first pebbles frames from a Go crash dump.
+func fwCrashHead(s string) string {
 	lines := strings.Split(s, "\n")
 	var out []string
 	for _, l := range lines {
